@@ -4,7 +4,8 @@
 //! usage: replay_matrix <scenarios.ndjson> <trace.ndjson> [--mutate <k>]
 //!
 //! Scenario line: {"sid":int,"sc":{n,ctor,ml,mu,pat,op,i,j,s,bkind,bml,bmu,bpat},"initA":[ints],"wsA":[[i,j,v]..],"wsB":[..]}
-//! Trace line:    {"sid","act":"ctorA|fillA|ctorB|fillB|op","panic":bool,"entries":[[int]],"kind":"I|F|B","ml","mu",
+//!                (two-operation scenarios add op2, i2, j2, s2, ckind, cml, cmu, cpat to sc and "wsC")
+//! Trace line:    {"sid","act":"ctorA|fillA|ctorB|fillB|op|ctorC|fillC|op2","panic":bool,"entries":[[int]],"kind":"I|F|B","ml","mu",
 //!                 "len","data":[int],"val":bool, ("sc": scenario record, on ctorA lines)}
 //! Entries / data are small integers (exact in f64); 888888 = value read back is not a small integer,
 //! 999999 = reading that entry panicked.
@@ -91,7 +92,7 @@ impl Out {
                 if !entries.is_empty() { entries[n - 1][0] += 1; }
             }
             2 if act == "op" && op == "write" => panic = false,
-            3 if act == "op" && op == "is_identity" => val = !val,
+            3 if (act == "op" || act == "op2") && op == "is_identity" => val = !val,
             4 => len += 1,
             5 if act == "fillA" && kind == "B" => {
                 let t = entries.clone();
@@ -115,6 +116,57 @@ fn writes(m: &mut Matrix, ws: &Value) -> bool {
     false
 }
 
+/// Apply one operation to `a` (second operand `b` for binary ops). Returns (panicked, resulting matrix, is_identity value).
+/// For a panicking binary / scalar op there is no result; for write / swap_rows / fill / is_identity the target is returned.
+fn apply(op: &str, mut a: Matrix, b: &Matrix, i: usize, j: usize, s: f64) -> (bool, Option<Matrix>, bool) {
+    match op {
+        "read" => (false, Some(a), false),
+        "write" => {
+            let p = catch(|| { a[(i, j)] = 77.0; }).is_err();
+            (p, Some(a), false)
+        }
+        "add" | "sub" => {
+            let b2 = b.clone();
+            let r = if op == "add" { catch(move || a + b2) } else { catch(move || a - b2) };
+            match r { Ok(m) => (false, Some(m), false), Err(_) => (true, None, false) }
+        }
+        "add_assign" | "sub_assign" | "sub_assign_ref" => {
+            let b2 = b.clone();
+            let p = match op {
+                "add_assign" => catch(|| { a += b2; }).is_err(),
+                "sub_assign" => catch(|| { a -= b2; }).is_err(),
+                _ => catch(|| { a -= &b2; }).is_err(),
+            };
+            if p { (true, None, false) } else { (false, Some(a), false) }
+        }
+        "component_add" | "component_sub" | "component_mul" => {
+            let r = match op {
+                "component_add" => catch(move || a.component_add(s)),
+                "component_sub" => catch(move || a.component_sub(s)),
+                _ => catch(move || a.component_mul(s)),
+            };
+            match r { Ok(m) => (false, Some(m), false), Err(_) => (true, None, false) }
+        }
+        "component_mul_mut" => {
+            let p = catch(|| a.component_mul_mut(s)).is_err();
+            (p, Some(a), false)
+        }
+        "is_identity" => match catch(|| a.is_identity()) {
+            Ok(v) => (false, Some(a), v),
+            Err(_) => (true, Some(a), false),
+        },
+        "swap_rows" => {
+            let p = catch(|| a.swap_rows(i, j)).is_err();
+            (p, Some(a), false)
+        }
+        "fill" => {
+            let p = catch(|| a.fill(s)).is_err();
+            (p, Some(a), false)
+        }
+        other => panic!("unknown op {other}"),
+    }
+}
+
 fn main() {
     let args: Vec<String> = std::env::args().collect();
     if args.len() < 3 { eprintln!("usage: replay_matrix <scenarios.ndjson> <trace.ndjson> [--mutate k]"); std::process::exit(2); }
@@ -136,6 +188,7 @@ fn main() {
         // ctorA
         let (ctor, ml, mu) = (st(sc, "ctor"), us(sc, "ml"), us(sc, "mu"));
         let ra = catch(|| construct(ctor, n, ml, mu, &init));
+        #[allow(unused_mut)]
         let mut a = match ra {
             Ok(m) => { out.line(sid, "ctorA", Some(sc), false, Some(&m), n, false, &op); m }
             Err(_) => { out.line(sid, "ctorA", Some(sc), true, None, n, false, &op); Matrix::zeros(n, n) }
@@ -157,61 +210,31 @@ fn main() {
             out.line(sid, "fillB", None, p, Some(&b), n, false, &op);
         }
 
-        // op
+        // op: (panicked, result / target matrix, is_identity value)
         let (i, j) = (us(sc, "i"), us(sc, "j"));
         let s = sc["s"].as_i64().unwrap() as f64;
-        match op.as_str() {
-            "read" => out.line(sid, "op", None, false, Some(&a), n, false, &op),
-            "write" => {
-                let p = catch(|| { a[(i, j)] = 77.0; }).is_err();
-                out.line(sid, "op", None, p, Some(&a), n, false, &op);
-            }
-            "add" | "sub" => {
-                let (a2, b2) = (a.clone(), b.clone());
-                let r = if op == "add" { catch(move || a2 + b2) } else { catch(move || a2 - b2) };
-                match r {
-                    Ok(m) => out.line(sid, "op", None, false, Some(&m), n, false, &op),
-                    Err(_) => out.line(sid, "op", None, true, None, n, false, &op),
+        let (p1, r1, v1) = apply(&op, a, &b, i, j, s);
+        out.line(sid, "op", None, p1, r1.as_ref(), n, v1, &op);
+
+        // optional second operation on the result of the first
+        let op2 = sc.get("op2").and_then(|v| v.as_str()).unwrap_or("none").to_string();
+        if op2 != "none" {
+            let r = r1.unwrap_or_else(|| Matrix::zeros(n, n));
+            let mut c = Matrix::zeros(n, n);
+            if matches!(op2.as_str(), "add" | "sub" | "add_assign" | "sub_assign" | "sub_assign_ref") {
+                let cctor = match st(sc, "ckind") { "I" => "identity", "F" => "zeros", _ => "banded" };
+                let (cml, cmu) = (us(sc, "cml"), us(sc, "cmu"));
+                match catch(|| construct(cctor, n, cml, cmu, &[])) {
+                    Ok(m) => { out.line(sid, "ctorC", None, false, Some(&m), n, false, &op2); c = m; }
+                    Err(_) => { out.line(sid, "ctorC", None, true, None, n, false, &op2); }
                 }
+                let p = writes(&mut c, &rec["wsC"]);
+                out.line(sid, "fillC", None, p, Some(&c), n, false, &op2);
             }
-            "add_assign" | "sub_assign" | "sub_assign_ref" => {
-                let b2 = b.clone();
-                let p = match op.as_str() {
-                    "add_assign" => catch(|| { a += b2; }).is_err(),
-                    "sub_assign" => catch(|| { a -= b2; }).is_err(),
-                    _ => catch(|| { a -= &b2; }).is_err(),
-                };
-                if p { out.line(sid, "op", None, true, None, n, false, &op) } else { out.line(sid, "op", None, false, Some(&a), n, false, &op) }
-            }
-            "component_add" | "component_sub" | "component_mul" => {
-                let a2 = a.clone();
-                let r = match op.as_str() {
-                    "component_add" => catch(move || a2.component_add(s)),
-                    "component_sub" => catch(move || a2.component_sub(s)),
-                    _ => catch(move || a2.component_mul(s)),
-                };
-                match r {
-                    Ok(m) => out.line(sid, "op", None, false, Some(&m), n, false, &op),
-                    Err(_) => out.line(sid, "op", None, true, None, n, false, &op),
-                }
-            }
-            "component_mul_mut" => {
-                let p = catch(|| a.component_mul_mut(s)).is_err();
-                out.line(sid, "op", None, p, Some(&a), n, false, &op);
-            }
-            "is_identity" => match catch(|| a.is_identity()) {
-                Ok(v) => out.line(sid, "op", None, false, Some(&a), n, v, &op),
-                Err(_) => out.line(sid, "op", None, true, Some(&a), n, false, &op),
-            },
-            "swap_rows" => {
-                let p = catch(|| a.swap_rows(i, j)).is_err();
-                out.line(sid, "op", None, p, Some(&a), n, false, &op);
-            }
-            "fill" => {
-                let p = catch(|| a.fill(s)).is_err();
-                out.line(sid, "op", None, p, Some(&a), n, false, &op);
-            }
-            other => panic!("unknown op {other}"),
+            let (i2, j2) = (us(sc, "i2"), us(sc, "j2"));
+            let s2 = sc["s2"].as_i64().unwrap() as f64;
+            let (p2, r2, v2) = apply(&op2, r, &c, i2, j2, s2);
+            out.line(sid, "op2", None, p2, r2.as_ref(), n, v2, &op2);
         }
         count += 1;
     }
